@@ -22,7 +22,13 @@ Record obs1 := {
   o_rest : option snap;
   o_orerr : option orerr              (* the restored error in the format of the unmarshaler checks *)
 }.
-Record case := { c_prog : list stmt; c_cfg : ucfg; c_vtab : vtab; c_obs : list (obs1 * list string) }.
+Record case := { c_prog : list stmt; c_cfg : ucfg; c_vtab : vtab; c_obs : list (obs1 * list string);
+                 c_options : bool
+                   (* two fixed round trips on the real library, compared by the harness alone: an error carrying
+                      EVERY built-in field except LogLevel (K2) through strict mode + WithBuiltinFields (all built-in
+                      extractors and Details give the original values), and D.Join(io.EOF, a, b) through
+                      WithStandardSentinelErrors + WithSentinelErrors(a) + WithSentinelErrors(b) (errors.Is keeps
+                      all three) *) }.
 
 Fixpoint shape_eqb (a b : shape) : bool :=
   match a, b with
@@ -47,7 +53,7 @@ Definition snap_eqb (a b : snap) : bool :=
 Definition ok1 (ou : obs1 * list string) : bool :=
   let o := fst ou in
   str_eqb (o_class o) "ok" && match o_rest o with Some r => snap_eqb (o_orig o) r | None => false end.
-Definition ok (c : case) : bool := forallb ok1 (c_obs c).
+Definition ok (c : case) : bool := forallb ok1 (c_obs c) && c_options c.
 
 (* ---- model: marshal, decode, unmarshal ---- *)
 Definition model_roundtrip (cfg : ucfg) (t : vtab) (unks : list string) (e : err) : option (ures rerr) :=
